@@ -5,10 +5,10 @@
   puts on its stack.  Kernel only.
 -/
 import ArtVerif.Gen.RangeOps
-import ArtVerif.Proofs.GenIter
+import ArtVerif.Proofs.PushBase
 namespace ArtVerif
 namespace GenRange
-open Gen Gen.RangeOps GoNode Raw Swar GenNodeOps GenWalk GenIter
+open Gen Gen.RangeOps GoNode Raw Swar GenNodeOps PushBase
 variable {C : Type}
 
 def tag (cd : Int) (l : List (Option C)) : List (Option C × Int) := l.map fun c => (c, cd)
@@ -133,7 +133,7 @@ theorem rs256_desc_slots (E : Env C) (cd : Int) (n : Img C) (hs : n.children.len
     with the depth `childDepth` the scan computed for them -/
 theorem rangeScan_push_eq (E : Env C) (r : Raw C) (q : List (Option C × Int)) (cd : Int) (hinv : r.inv = true) :
     rangeScan_push E (imgOf r).1 (imgOf r).2 q cd = some (q ++ tag cd r.pushDesc) := by
-  rw [GenIter.pushDesc_eq]
+  rw [PushBase.pushDesc_eq]
   cases r with
   | n4 h len keys slots =>
     obtain ⟨_, hs, hl4, _⟩ := (inv4_iff h len keys slots).1 hinv
